@@ -929,7 +929,13 @@ def oracle_estimate(ctx, case, est):
     # pairs in the box: are they all true pairs (difference = the true shift, up to rounding/jitter)?
     slack = 1e-9 * (1.0 + float(np.max(np.abs(np.array(img)))) / p) + 4.0 * case['jitter'] / p
     true = (np.abs(dx - sx / p) <= slack) & (np.abs(dy - sy / p) <= slack)
-    if inbox.any() and not (inbox & ~true).any():
+    spread = False
+    if case['jitter'] > 0 and inbox.any():
+        # jittered positions are not exact shifted copies: when the differences of the true pairs occupy several
+        # bins the peak finder fits a surface through them (zero bins masked) and only the five-bin clause of the
+        # property bounds the estimate (a 6-bin histogram 17/26/1-3 gave 1.77 bins in the widened search)
+        spread = len({(int(a), int(b)) for a, b in zip(np.floor(dx[inbox] + 0.5), np.floor(dy[inbox] + 0.5))}) > 1
+    if inbox.any() and not (inbox & ~true).any() and not spread:
         # only true pairs in the box: within half a bin in x and in y separately
         tol = p * (0.5 + slack) + 1e-12
         if abs(ex - sx) > tol or abs(ey - sy) > tol:
